@@ -27,11 +27,11 @@ def session_probe(srv, i, sc):
 
 
 def replay(hist, *, stop, adapter, unit="seconds", compress=False, srv=None, tear=None, base_constants=False, observe=None, probe=False, known=None, two=False,
-           grid=(1.0, 1.0), files=False, names=None):
+           grid=(1.0, 1.0), files=False, names=None, shared=False):
     """returns None when the real server answers as the history says, else a dict describing the first mismatch.
     Expected values are the *intended* ones (`want`) when the history carries them."""
     own = srv is None
-    srv = srv or S.Srv(stop=stop, adapter=adapter, compress=compress, unit=unit, base_constants=base_constants, two=two, grid=grid, files=files, names=names)
+    srv = srv or S.Srv(stop=stop, adapter=adapter, compress=compress, unit=unit, base_constants=base_constants, two=two, grid=grid, files=files, names=names, shared=shared)
     sess = {}       # symbolic id -> scenario of the current session (for projections)
     stopped = set()
     try:
